@@ -8,10 +8,10 @@ M   = {"name", "ports": [[name, dir, msb|None, lsb|None]...], "wires": [[name, m
        "assigns": [[lhs expr, rhs expr]], "celldefine": bool, "declared": bool (False = never declared),
        "params": {}, "attrs": {}}
 expr = list of atoms, MSB first; [] = empty connection
-atom = ["net", name] | ["bit", name, i] | ["range", name, hi, lo] | ["c", 0|1]
+atom = ["net", name] | ["bit", name, i] | ["range", name, hi, lo] | ["c", 0|1|"x"|"X"|"z"|"Z"]
 """
 
-CONST = {0: "\\<const0>", 1: "\\<const1>"}
+CONST = {0: "\\<const0>", 1: "\\<const1>", "x": "\\<constx>", "X": "\\<constX>", "z": "\\<constz>", "Z": "\\<constZ>"}
 
 
 def esc(name):
@@ -30,7 +30,7 @@ def atom_text(a):
         return "%s[%d]" % (esc(a[1]), a[2])
     if a[0] == "range":
         return "%s[%d:%d]" % (esc(a[1]), a[2], a[3])
-    return "1'b%d" % a[1]
+    return "1'b%s" % a[1]
 
 
 def expr_text(e):
